@@ -171,11 +171,13 @@ Proof. vm_compute. repeat split; reflexivity. Qed.
 Print Assumptions sql_compat_refuted.
 
 (* the classes repaired in /repo stay repaired: none of their witnesses is a bad triple any more *)
-(* FULL STRENGTH since /repo bb7bbd5 (before: `_outside_pattern_hole`, C02-N5): no (LIKE template, any hole, any child)
-   triple is bad, in either dialect -- F5 children included: the pattern hole now asks for strength 12 (sqlite) and
-   the generic templates build the pattern with CONCAT( ) *)
+(* Since /repo bb7bbd5 (before: `_outside_pattern_hole`, C02-N5) the LIKE templates contribute no bad triple of their
+   own, in either dialect, at ANY of their holes: the only bad triples under a LIKE template are those every parent
+   has -- a child that lies about its strength (F5: div_i, math.log).  The pattern hole now asks for strength 12
+   (sqlite); the generic templates build the pattern with CONCAT( ). *)
 Theorem like_templates_fine :
-  forallb (fun d => forallb (fun t => negb (mem (fst (fst t)) concat_pattern_templates)) (bad_table d)) [d_sqlite; d_generic] = true.
+  forallb (fun d => forallb (fun t => negb (mem (fst (fst t)) concat_pattern_templates) || mem (snd t) dishonest_templates) (bad_table d))
+          [d_sqlite; d_generic] = true.
 Proof. vm_compute. reflexivity. Qed.
 Print Assumptions like_templates_fine.
 Example ex_like_templates_are_constructs :
